@@ -1,5 +1,103 @@
-(* C04 - placeholder while the check is being built *)
-From Asynkit Require Import Base.Prelude Coro.Tree Coro.Context.
-Theorem C04_placeholder : truthy [] = false.
-Proof. reflexivity. Qed.
-Print Assumptions C04_placeholder.
+(* C04 - A coroutine given a Context runs every one of its steps inside it.
+
+   Bodies are trees [c : coro] (Coro/Tree.v) with ContextVar reads [Get x k] and
+   writes [Set_ x v c].  Coro/Context.v models contextvars (a context is a finite
+   map, [lookup] / [update]; `context.run` swaps the supplied context in for one
+   resumption and keeps what was written) and transcribes CoroStart (_start,
+   __await__, athrow, aclose, as_coroutine, throw, close), coro_await and
+   coro_eager with `context.run` exactly where the code has it: [repaired] =
+   the code after fixes/F3-context.patch, [original] = before.  The interpreter
+   records every read and write it evaluates ([st_log], in order: [ARead x v] =
+   "x was read as v", [AWrite x v]) whatever context it was evaluated against;
+   a run is a list of steps (one per operation applied from outside), each with
+   the caller's context [st_cur] and the supplied context [st_sup] after it.
+   [replay x log] = x updated by the writes of log in order;
+   [reads_latest x log] = every read in log returned the latest earlier write
+   of log to that variable, or x's value if there is none.
+   [nomark c]: the body does not contain the two events reserved for the
+   `context.run` markers (no generated body does).
+   The model is tied to asynkit by the correspondence check (harness/props/c04.py). *)
+From Asynkit Require Import Base.Prelude Coro.Tree Coro.Native Coro.Prog Coro.Relay Coro.Context
+  Coro.ContextProofs Coro.ContextProgProofs.
+
+(* With a context x supplied (context=x; for eager x = the private copy of the
+   caller's context), for EVERY body and EVERY sequence of operations --
+   cs.throw(e, tries), cs.close(), and the awaitables __await__ / athrow(e) /
+   aclose() / as_coroutine() driven by any send / throw / close sequence:
+   after every step the caller's context is what it was, the supplied context is
+   x plus all writes of the body so far, and every read of the body returned the
+   body's latest write (or x's value). *)
+Theorem C04_isolated : forall (c : coro) (caller : ctx), nomark c ->
+  (forall a x ps, supplied a caller = Some x ->
+     let steps := run_corostart repaired a caller c ps in
+     Forall (fun s => st_cur s = caller) steps /\
+     reads_latest x (concat (map st_log steps)) /\
+     (forall d, steps <> [] -> st_sup (last steps d) = Some (replay x (concat (map st_log steps)))) /\
+     steps_iso caller x steps) /\
+  (forall a x ops, supplied a caller = Some x ->
+     let steps := run_coro_await repaired a caller c ops in
+     Forall (fun s => st_cur s = caller) steps /\
+     reads_latest x (concat (map st_log steps)) /\
+     (forall d, steps <> [] -> st_sup (last steps d) = Some (replay x (concat (map st_log steps)))) /\
+     steps_iso caller x steps) /\
+  (forall ops,
+     let steps := run_eager repaired caller c ops in
+     Forall (fun s => st_cur s = caller) steps /\
+     reads_latest caller (concat (map st_log steps)) /\
+     (forall d, steps <> [] -> st_sup (last steps d) = Some (replay caller (concat (map st_log steps)))) /\
+     steps_iso caller caller steps).
+Proof. exact isolated_all. Qed.
+Print Assumptions C04_isolated.
+
+(* [steps_iso caller x steps], used above, says the same after EVERY step:
+     steps_iso cu x []       = True
+     steps_iso cu x (s :: t) = st_cur s = cu /\ st_sup s = Some (replay x (st_log s)) /\
+                               reads_latest x (st_log s) /\ steps_iso cu (replay x (st_log s)) t *)
+
+(* With context=None, coro_await(c) (and CoroStart(c) followed by its __await__)
+   driven by any send / throw / close sequence in the caller's context gives, step
+   by step, the events, outcomes and caller's context that CPython's native
+   `await c` gives ([hide]/[visible] only drop the reserved marker events). *)
+Theorem C04_shared_when_none : forall vt c caller ops,
+  map seen (c_drive_stop KCoro (New (coro_await_ctx vt false c)) (mkcstate caller None false) ops) =
+  map hide (drive_stop_s KCoro (New (native_await c)) caller ops).
+Proof. exact shared_when_none. Qed.
+Print Assumptions C04_shared_when_none.
+
+Theorem C04_shared_when_none_CoroStart : forall vt c caller ops,
+  map seen (c_drive_stop KGen (New (cs_start c (cs_await_of vt false))) (mkcstate caller None false) ops) =
+  map hide (drive_stop_s KGen (New (native_await c)) caller ops).
+Proof. exact shared_when_none_corostart. Qed.
+Print Assumptions C04_shared_when_none_CoroStart.
+
+(* Finding F3: the code before the repair violates the property on each path
+   (witnesses evaluated by vm_compute): cs.close(), cs.throw(), the GeneratorExit
+   branch of __await__, and an EMPTY Context() (falsy) given to coro_await or
+   produced by copy_context() in eager(). *)
+Theorem C04_refuted_before_fix :
+  (exists c x caller, nomark c /\
+     ~ steps_iso caller x (run_corostart original (CGiven x) caller c [PClose])) /\
+  (exists c x caller, nomark c /\
+     ~ steps_iso caller x (run_corostart original (CGiven x) caller c [PThrow (E 1) 1])) /\
+  (exists c x caller, nomark c /\
+     ~ steps_iso caller x (run_corostart original (CGiven x) caller c
+                                         [PAwaitable MAwait [DThrow GeneratorExit]])) /\
+  (exists c caller, nomark c /\
+     ~ steps_iso caller [] (run_coro_await original (CGiven []) caller c [])) /\
+  (exists c, nomark c /\ ~ steps_iso [] [] (run_eager original [] c [])).
+Proof.
+  repeat split.
+  - exact refuted_close.
+  - exact refuted_sync_throw.
+  - exact refuted_await_genexit.
+  - exact refuted_empty_context.
+  - exact refuted_eager_from_empty.
+Qed.
+Print Assumptions C04_refuted_before_fix.
+
+(* The side condition [nomark] holds for every body the correspondence check
+   generates (the syntax of Coro/Prog.v: log, await, call, try/except/finally,
+   return, raise, ContextVar set / get). *)
+Theorem C04_generated_bodies_in_scope : forall p, nomark (body_of p).
+Proof. exact nomark_body_of. Qed.
+Print Assumptions C04_generated_bodies_in_scope.
